@@ -37,7 +37,8 @@ TRUSTED_BASE = [
     "(correspondence is sampling)",
     "tools/translate/gen_c07.py regenerates IDENTITY_ENCODER, the four identity CMap names of CMapDB.get_cmap, the "
     "DW/DW2 defaults, the TrueType collections tuple, the writing-mode argument of get_unicode_map, the popall "
-    "keywords of CMapParser.do_keyword and the separator of the cidcoding f-string from the source",
+    "keywords of CMapParser.do_keyword, the separator of the cidcoding f-string and the presence of the "
+    "`if font.is_multibyte(): wordspace = 0` guard of PDFTextDevice.render_string from the source",
     "Python twin of the Lean spec in tools/harness/props/c07.py (compared with the Lean spec on every case)",
     "PDFCIDFont.__init__ glue (cidcoding, DW/DW2 validation, choice of W/DW vs W2/DW2 by writing mode) is hand-modelled "
     "(cidCoding, dwValue, dw2Value, cidCharWidth, cidCharDisp) and tie-checked on ill-typed / ill-formed dictionaries",
@@ -56,7 +57,9 @@ ASSUMPTIONS = [
     "FileUnicodeMap.add_cid2unichr and destination strings whose last <=4 bytes overflow 2^32 are outside the domain",
     "W/W2 grammar: any interleaving of `c [w ...]` and `c1 c2 w` with integer cids (the part of a range outside "
     "0..65535 is void, in the spec as in the code since 471ca31); malformed arrays are tie-checked only",
-    "vertical documents are generated with Tz = 100 and Tc = 0 (text-state arithmetic belongs to C05)",
+    "documents are shown under default and non-default text state (Tc, Tw, Tz, Ts): the pen displacement between "
+    "glyphs is judged as (w*Tfs + Tc)[*Th when horizontal]; word spacing never applies to a code of two or more bytes; "
+    "for the single-byte code 32 of a composite font both treatments are accepted (ISO applies Tw, pdfminer does not)",
 ]
 STATEMENT_STATUS: Dict[str, str] = {
     "identity_segment": "proved: IdentityCMap.decode = complete big-endian 2-byte codes, every length (after fix 70858cb)",
@@ -103,6 +106,10 @@ STATEMENT_STATUS: Dict[str, str] = {
     "unicode_map_from_cidsysteminfo": "proved: from the raw CIDSystemInfo (any surrounding white space) a font without "
                                       "ToUnicode reads the table Registry-Ordering of its CMap's writing mode",
     "usecmap_def_ignored": "proved: /Name usecmap and /Key value def leave map and operand stack unchanged",
+    "composite_advance_ignores_tw": "proved over the regenerated guard of render_string: pen step after a glyph of a "
+                                    "composite font = w*Tfs/1000 + Tc (times Th when horizontal), CID 32 included, "
+                                    "independent of Tw",
+    "composite_pen_ignores_tw": "proved: the pen after a whole composite-font string does not depend on Tw",
     "cidcoding_unknown": "proved: missing / ill-typed Registry and Ordering read as unknown-unknown",
     "cidchar_map": "proved (handler level): cid <code> pairs -> cid maps to the UTF-16BE text of the string",
     "cidrange_map": "proved (handler level): <lo> <hi> cid -> cid+i maps to the text of code lo+i (carry form), no "
@@ -1700,6 +1707,13 @@ def gen_doc(rng) -> Dict[str, Any]:
             chars = rng.sample(CJK_CHARS[ordering], 3)
             cfg["tu"] = {"sections": [sec_word(("C", [(ch.encode(cfg["codec"]), (ch + "*").encode("utf-16-be"))
                                                        for ch in chars]))]}
+    # text state in effect while the strings are shown (ISO 32000-1 9.3): character spacing Tc, word spacing Tw,
+    # horizontal scaling Tz, rise Ts.  Word spacing concerns the SINGLE-BYTE code 32 only (9.3.3): never a code of two or
+    # more bytes, whatever its CID.
+    cfg["ts"] = None
+    if rng.random() < 0.5:
+        cfg["ts"] = {"tc": rng.choice([0, 0, 0.5, -0.25, 2]), "tw": rng.choice([0, 3, 3, -1.5, 10, 0.75]),
+                     "tz": rng.choice([100, 100, 50, 150, 80]), "rise": rng.choice([0, 0, 3, -2.5])}
     cfg["fs"] = rng.choice([1, 10, 12, 8.5, 24])
     cfg["tm"] = rng.choice([[1, 0, 0, 1, 100, 700], [2, 0, 0, 2, 50, 300], [0, 1, -1, 0, 300, 100],
                             [1, 0, 0.5, 1, 72, 72], [0.5, 0, 0, -1.5, 10, 500]])
@@ -1718,6 +1732,8 @@ def gen_doc(rng) -> Dict[str, Any]:
     for e in (cfg["w"] or []) + (cfg["w2"] or []):
         hot += [e[1], e[1] + 1] + ([e[2], e[2] + 1, e[2] - 1] if e[0] == "R" else [e[1] + len(e[2]) - 1, e[1] + len(e[2])])
     hot = [h for h in hot if 0 <= h <= 65535] + BOUNDARY_CIDS
+    if cfg["ts"]:
+        hot += [32, 32, 32, 0x2000, 0x2020]         # CID 32 = code <0020> / <20>; byte 0x20 inside other two-byte codes
     if cfg["tu"] and "sections" in cfg["tu"] and width:
         m, _ = spec_tounicode([parse_sec_word(w) for w in cfg["tu"]["sections"]])
         hot += list(m)[:20]
@@ -1736,7 +1752,8 @@ def gen_doc(rng) -> Dict[str, Any]:
                     s += bytes([rng.randrange(256)])          # odd length: trailing byte
             else:
                 ordering = cfg["ros"][1]
-                txt = "".join(rng.choice(CJK_CHARS[ordering] + "Ab 1") for _ in range(rng.randint(0, 5)))
+                txt = "".join(rng.choice(CJK_CHARS[ordering] + "Ab 1" + ("? ? " if cfg["ts"] else ""))   # `?` is CID 32 of the CJK collections
+                              for _ in range(rng.randint(0, 5)))
                 s = txt.encode(cfg["codec"])
                 if rng.random() < 0.1 and cfg["codec"] != "utf_16_be":
                     lead = "一".encode(cfg["codec"])[:1]
@@ -1859,6 +1876,9 @@ def doc_pdf(cfg) -> bytes:
 
     def block(name: bytes, shows) -> bytes:
         c = b"BT /" + name + b" " + ser(cfg["fs"]) + b" Tf " + b" ".join(ser(x) for x in cfg["tm"]) + b" Tm\n"
+        ts = cfg.get("ts")
+        if ts:
+            c += ser(ts["tc"]) + b" Tc " + ser(ts["tw"]) + b" Tw " + ser(ts["tz"]) + b" Tz " + ser(ts["rise"]) + b" Ts\n"
         for items in shows:
             if len(items) == 1 and isinstance(items[0], str):
                 c += b"<" + items[0].encode() + b"> Tj\n"
@@ -1944,21 +1964,56 @@ def segment_codes(cfg, data: bytes) -> Optional[List[Tuple[int, int]]]:
     return out
 
 
-def doc_expect(cfg):
-    """Expected glyphs of the whole document (first font's block and, if present, the second font's)."""
-    first = doc_expect_one(cfg)
+def doc_expect(cfg, sb_tw: bool = False):
+    """Expected glyphs of the whole document (first font's block and, if present, the second font's).
+    sb_tw: word spacing is applied to the single-byte code 32 of a composite font (ISO 32000-1 9.3.3 says so for a
+    CMap that defines 32 as a single-byte code; pdfminer never does for a composite font - both are accepted, the
+    arithmetic of simple fonts is C05's).  A code of two or more bytes NEVER receives word spacing."""
+    first = doc_expect_one(cfg, sb_tw)
     if first is None or not cfg.get("second"):
         return first
-    second = doc_expect_one(second_cfg(cfg))
+    second = doc_expect_one(second_cfg(cfg), sb_tw)
     if second is None:
         return None
     return first + second if cfg["second"].get("order", "after") == "after" else second + first
 
 
-def doc_expect_one(cfg):
+def single_byte_32(cfg) -> bool:
+    """Does some shown string of the document contain the single-byte code 32 (while word spacing is non-zero)?"""
+    def one(c):
+        if not (c.get("ts") and c["ts"]["tw"]):
+            return False
+        for items in c["shows"]:
+            for it in items:
+                if isinstance(it, str):
+                    segs = segment_codes(c, bytes.fromhex(it))
+                    if segs and any(code == 32 and code_len(c, code) == 1 for code, _ in segs):
+                        return True
+        return False
+    return one(cfg) or bool(cfg.get("second") and one(second_cfg(cfg)))
+
+
+def code_len(cfg, code: int) -> int:
+    """Byte length of a code of the encoding CMap with this value (the shortest, when several lengths exist)."""
+    enc = cfg["enc"]
+    if enc in IDENT2:
+        return 2
+    if enc in IDENT1:
+        return 1
+    tab, maxlen = flat_table(enc)
+    for L in range(1, maxlen + 1):
+        if code < 256 ** L and code.to_bytes(L, "big") in tab:
+            return L
+    return maxlen
+
+
+def doc_expect_one(cfg, sb_tw: bool = False):
     """Expected glyphs: list of (acceptable texts (set) , adv, e, f); None outside the spec's domain."""
     vertical = cfg["enc"].endswith("V")
     fs = F(cfg["fs"])
+    ts = cfg.get("ts") or {"tc": 0, "tw": 0, "tz": 100, "rise": 0}
+    tc, tw, th, rise = F(ts["tc"]), F(ts["tw"]), F(ts["tz"]) / 100, F(ts["rise"])
+    hs = F(1) if vertical else th           # Th scales the horizontal displacement only (9.4.4)
     a, b_, c, d, e, f = (F(x) for x in cfg["tm"])
     tumap = None
     if cfg.get("tu") and "sections" in cfg["tu"]:
@@ -1984,7 +2039,7 @@ def doc_expect_one(cfg):
                 if vertical:
                     y -= F(it) * fs / 1000
                 else:
-                    x -= F(it) * fs / 1000
+                    x -= F(it) * fs / 1000 * th
                 continue
             data = bytes.fromhex(it)
             segs = segment_codes(cfg, data)
@@ -2014,7 +2069,7 @@ def doc_expect_one(cfg):
                             texts = {um.cid2unichr[cid]}
                     except Exception:  # noqa: BLE001
                         pass
-                adv_ = width(cid) * fs / 1000
+                adv_ = width(cid) * fs / 1000 * hs
                 ge, gf = x * a + y * c + e, x * b_ + y * d + f
                 # glyph box in glyph-origin coordinates (pdfminer's convention: em-wide box; vertical glyphs are placed
                 # by the position vector (vx, vy) of the font's own W2, default (w0/2 with w0 = 1000, DW2[0]))
@@ -2022,16 +2077,21 @@ def doc_expect_one(cfg):
                     vx, vy = (w2[cid][1], w2[cid][2]) if cid in w2 else (None, dvy)
                     bx = fs / 2 if vx is None else vx * fs / 1000
                     by = (1000 - vy) * fs / 1000
-                    rect = (-bx, by + adv_, -bx + fs, by)
+                    rect = (-bx, by + rise + adv_, -bx + fs, by + rise)
                 else:
-                    rect = (F(0), F(-200) * fs / 1000, adv_, F(-200) * fs / 1000 + fs)
+                    rect = (F(0), F(-200) * fs / 1000 + rise, adv_, F(-200) * fs / 1000 + rise + fs)
                 pts = [(px * a + py * c + ge, px * b_ + py * d + gf) for px in (rect[0], rect[2]) for py in (rect[1], rect[3])]
                 box = (min(p[0] for p in pts), min(p[1] for p in pts), max(p[0] for p in pts), max(p[1] for p in pts))
                 out.append([texts, adv_, ge, gf, cid, box])
+                # pen displacement to the next glyph (9.4.4): (w * Tfs + Tc + Tw) [* Th when horizontal];
+                # Tw for the single-byte code 32 only
+                step = adv_ + tc * hs
+                if sb_tw and code == 32 and code_len(cfg, code) == 1:
+                    step += tw * hs
                 if vertical:
-                    y += width(cid) * fs / 1000
+                    y += step
                 else:
-                    x += width(cid) * fs / 1000
+                    x += step
             if cfg["codec"] and tumap is None:
                 # collection map: the platform codec decides the text of the whole (complete) part of the string
                 k = len(out) - len(segs)
@@ -2051,16 +2111,26 @@ def close(a_, b_) -> bool:
 
 def doc_compare(cfg):
     """None when the implementation matches; else (what, expected, got, tags)."""
-    exp = doc_expect(cfg)
+    got, e = call(lambda: impl_glyphs(doc_pdf(cfg)))
+    r = doc_compare_with(cfg, got, e, False)
+    if r is not None and r != "outside" and single_byte_32(cfg):
+        r2 = doc_compare_with(cfg, got, e, True)
+        if r2 is None:
+            return None
+    return r
+
+
+def doc_compare_with(cfg, got, e, sb_tw: bool):
+    exp = doc_expect(cfg, sb_tw)
     if exp is None:
         return "outside"
-    got, e = call(lambda: impl_glyphs(doc_pdf(cfg)))
     ident = cfg["enc"] in IDENT1 + IDENT2
     if cfg.get("second"):
         ident = ident and cfg["second"]["enc"] in IDENT1 + IDENT2
     tags = {"group": "doc", "enc": cfg["enc"], "two_fonts": bool(cfg.get("second")), "identity_cmap": ident,
             "indirect": list(cfg.get("indirect") or []),
             "tu_stream": bool(cfg.get("tu") and "sections" in cfg["tu"]), "vertical": cfg["enc"].endswith("V"),
+            "text_state": bool(cfg.get("ts")), "tw": bool(cfg.get("ts") and cfg["ts"]["tw"]),
             "odd": ident and any(isinstance(it, str) and (len(it) // 2) % 2 == 1 for items in cfg["shows"] for it in items)
             and cfg["enc"] in IDENT2}
     if e is not None:
@@ -2075,7 +2145,8 @@ def doc_compare(cfg):
         if not close(adv, gadv):
             return ("composite font: advance differs from W/DW (W2/DW2)", str(adv), gadv, dict(tags, what="adv", index=k))
         if not (close(ee, gm[4]) and close(ff, gm[5])):
-            return ("composite font: glyph origin differs from the pen position implied by the advances",
+            return ("composite font: glyph origin differs from the pen position implied by the advances W/DW (W2/DW2), "
+                    "character spacing and TJ adjustments (word spacing never applies to a multi-byte code)",
                     [str(ee), str(ff)], list(gm[4:6]), dict(tags, what="matrix", index=k))
         if not all(close(p, q) for p, q in zip(box, gbox)):
             return ("composite font: glyph box differs from the placement the font's metrics define "
@@ -2090,11 +2161,16 @@ def shrink_doc(cfg):
         r = doc_compare(c)
         return r is not None and r != "outside"
     cur = json.loads(json.dumps(cfg))
-    for key, val in (("second", None), ("indirect", []), ("w", None), ("w2", None), ("dw", None), ("dw2", None), ("ttf", None), ("tu", None),
+    for key, val in (("second", None), ("indirect", []), ("ts", None), ("w", None), ("w2", None), ("dw", None), ("dw2", None), ("ttf", None), ("tu", None),
                      ("tm", [1, 0, 0, 1, 0, 0]), ("fs", 10), ("enc_kind", "name")):
         if cur.get(key) != val:
             cand = dict(cur, **{key: val})
             if fails(cand):
+                cur = cand
+    if cur.get("ts"):
+        for k, v in (("tc", 0), ("tz", 100), ("rise", 0), ("tw", 0)):
+            cand = dict(cur, ts=dict(cur["ts"], **{k: v}))
+            if cur["ts"][k] != v and fails(cand):
                 cur = cand
     if len(cur.get("indirect") or []) > 1:
         cur["indirect"] = C.ddmin(list(cur["indirect"]), lambda sub: fails(dict(cur, indirect=sub)), 30)
@@ -2122,6 +2198,14 @@ def check_doc(ctx: C.Ctx, b: Batch, cfg, do_shrink=True, record=True) -> None:
              + (":outside" if r == "outside" else ""))
     for k in cfg.get("indirect") or []:
         ctx.branch("doc:indirect:" + k)
+    if cfg.get("ts"):
+        for k, dflt in (("tc", 0), ("tw", 0), ("tz", 100), ("rise", 0)):
+            if cfg["ts"][k] != dflt:
+                ctx.branch("doc:ts:" + k + (":v" if vertical else ":h"))
+        if cfg["ts"]["tw"] and any(cid_ == 32 for (_, _, _, _, cid_, _) in (doc_expect(cfg) or [])):
+            ctx.branch("doc:ts:tw-with-cid32:" + kind)
+        if single_byte_32(cfg):
+            ctx.branch("doc:ts:tw-with-single-byte-32:" + kind)
     if r is None or r == "outside":
         return
     small = shrink_doc(cfg) if do_shrink else cfg
@@ -2368,6 +2452,63 @@ def coding_case(ctx: C.Ctx, b: "Batch", reg, order) -> None:
     if got != "K " + want.hex():
         ctx.fail(C.Failure("cidcoding is not Registry-Ordering with surrounding white space removed", inp,
                            "K " + want.hex(), got, {"group": "coding"}))
+
+
+def run_pen(ctx: C.Ctx) -> None:
+    """PDFTextDevice.render_string on a composite font under a non-default text state: pen after one string —
+    implementation vs model (`penAfter`, op `pen`) vs the rule of theorem composite_advance_ignores_tw."""
+    from pdfminer.pdfdevice import PDFTextDevice
+    from pdfminer.pdffont import PDFCIDFont
+    from pdfminer.pdfinterp import PDFResourceManager, PDFTextState
+    from pdfminer.psparser import LIT
+
+    class Dev(PDFTextDevice):
+        def render_char(self, matrix, font, fontsize, scaling, rise, cid, ncs, graphicstate):
+            return font.char_width(cid) * fontsize * (1 if font.is_vertical() else scaling)   # = LTChar.adv
+
+    rng = ctx.rng
+    lines, meta = [], []
+    for _ in range(ctx.n(200, 5000)):
+        v = rng.random() < 0.5
+        w = rng.choice([1000, 500, 0, 250.5, 600]) * (-1 if v else 1)
+        fs, tc = rng.choice([1, 10, 12, 8.5]), rng.choice([0, 0.5, -0.25, 2])
+        tw, tz = rng.choice([0, 3, -1.5, 10]), rng.choice([100, 50, 150, 80])
+        cids = [rng.choice([32, 32, 0x41, 0x2000, 0x2020, rng.randrange(65536)]) for _ in range(rng.randint(0, 5))]
+        spec: Dict[str, Any] = {"Type": LIT("Font"), "Subtype": LIT("CIDFontType2"), "BaseFont": LIT("X"),
+                                "CIDSystemInfo": {"Registry": b"Adobe", "Ordering": b"Identity", "Supplement": 0},
+                                "Encoding": LIT("Identity-V" if v else "Identity-H"), "FontDescriptor": {}}
+        spec["DW2" if v else "DW"] = [880, w] if v else w
+        inp = {"group": "pen", "vertical": v, "fs": fs, "tc": tc, "tw": tw, "tz": tz, "w": w, "cids": cids}
+
+        def go():
+            font = PDFCIDFont(None, spec)
+            st = PDFTextState()
+            st.font, st.fontsize, st.charspace, st.wordspace, st.scaling = font, fs, tc, tw, tz
+            st.matrix, st.linematrix = (1, 0, 0, 1, 0, 0), (0, 0)
+            dev = Dev(PDFResourceManager())
+            dev.set_ctm((1, 0, 0, 1, 0, 0))
+            dev.render_string(st, [b"".join(c.to_bytes(2, "big") for c in cids)], None, None)
+            return st.linematrix[1 if v else 0]
+        got, e = call(go)
+        ctx.case(("pen", json.dumps(inp, sort_keys=True)), bool(cids),
+                 branch="pen:" + ("v" if v else "h") + (":tw" if tw else "") + (":cid32" if 32 in cids else ""))
+        if e is not None:
+            ctx.fail(C.Failure("render_string of a composite font raised", inp, "a pen position", exc_line(e),
+                               {"group": "pen", "exc": type(e).__name__}))
+            continue
+        th = F(1) if v else F(tz) / 100
+        want = sum(((F(w) * F(fs) / 1000 + F(tc)) * th for _ in cids), F(0))
+        if not close(want, got):
+            ctx.fail(C.Failure("composite font: pen after a string differs from sum of (w*Tfs/1000 + Tc)[*Th]; word "
+                               "spacing must not apply to two-byte codes", inp, str(want), got,
+                               {"group": "pen", "vertical": v, "cid32": 32 in cids, "tw": bool(tw)}))
+        lines.append("pen %d %s %s %s %s %s %s" % (v, num_word(fs), num_word(tc), num_word(tw), num_word(tz), num_word(w),
+                                               " ".join(str(c) for c in cids)))
+        meta.append((inp, got))
+    if ctx.driver is not None and lines:
+        for (inp, got), out in zip(meta, ctx.driver.ask(lines)):
+            if not out.startswith("P ") or not close(F(out[2:]), got):
+                ctx.disagree("pen.model", inp, got, out)
 
 
 def run_umapsel_raw(ctx: C.Ctx) -> None:
@@ -2782,6 +2923,34 @@ def replay(ctx: C.Ctx, doc, from_corpus: bool = False) -> None:
             if not close(exp, got):
                 ctx.fail(C.Failure("CID font: width of a cid differs from W/DW (W2/DW2)", inp, str(exp), got,
                                    {"group": "fontwidth", "vertical": vertical}))
+    elif g == "pen":
+        ctx.case(("pen", json.dumps(inp, sort_keys=True)), True)
+        from pdfminer.pdfdevice import PDFTextDevice
+        from pdfminer.pdffont import PDFCIDFont
+        from pdfminer.pdfinterp import PDFResourceManager, PDFTextState
+        from pdfminer.psparser import LIT
+
+        class Dev(PDFTextDevice):
+            def render_char(self, matrix, font, fontsize, scaling, rise, cid, ncs, graphicstate):
+                return font.char_width(cid) * fontsize * (1 if font.is_vertical() else scaling)
+        v = inp["vertical"]
+        spec = {"Type": LIT("Font"), "Subtype": LIT("CIDFontType2"), "BaseFont": LIT("X"),
+                "CIDSystemInfo": {"Registry": b"Adobe", "Ordering": b"Identity", "Supplement": 0},
+                "Encoding": LIT("Identity-V" if v else "Identity-H"), "FontDescriptor": {},
+                ("DW2" if v else "DW"): [880, inp["w"]] if v else inp["w"]}
+        st = PDFTextState()
+        st.font, st.fontsize, st.charspace, st.wordspace, st.scaling = PDFCIDFont(None, spec), inp["fs"], inp["tc"], inp["tw"], inp["tz"]
+        st.matrix, st.linematrix = (1, 0, 0, 1, 0, 0), (0, 0)
+        dev = Dev(PDFResourceManager())
+        dev.set_ctm((1, 0, 0, 1, 0, 0))
+        dev.render_string(st, [b"".join(c.to_bytes(2, "big") for c in inp["cids"])], None, None)
+        got = st.linematrix[1 if v else 0]
+        th = F(1) if v else F(inp["tz"]) / 100
+        want = sum(((F(inp["w"]) * F(inp["fs"]) / 1000 + F(inp["tc"])) * th for _ in inp["cids"]), F(0))
+        if not close(want, got):
+            ctx.fail(C.Failure("composite font: pen after a string differs from sum of (w*Tfs/1000 + Tc)[*Th]; word "
+                               "spacing must not apply to two-byte codes", inp, str(want), got,
+                               {"group": "pen", "vertical": v, "cid32": 32 in inp["cids"], "tw": bool(inp["tw"])}))
     elif g == "tubytes":
         check_tubytes(ctx, b, bytes.fromhex(inp["data"]),
                       [parse_sec_word(w) for w in inp["sections"]] if inp.get("sections") else None, "replay", "replay")
@@ -2845,6 +3014,7 @@ def run(ctx: C.Ctx) -> None:
     run_umapsel(ctx)
     run_fontwidth(ctx)
     run_fontglue(ctx)
+    run_pen(ctx)
     run_umapsel_raw(ctx)
     run_cidsec(ctx)
     run_tubytes(ctx)
